@@ -25,10 +25,18 @@ def ensure_irdump():
     if os.path.exists(IRDUMP) and os.path.getmtime(IRDUMP) >= os.path.getmtime(src):
         return
     os.makedirs(os.path.dirname(IRDUMP), exist_ok=True)
-    cxx = subprocess.check_output(['llvm-config-14', '--cxxflags']).decode().split()
-    cxx = [x for x in cxx if not x.startswith('-std=')]
-    ld = subprocess.check_output(['llvm-config-14', '--ldflags', '--libs', 'core', 'irreader', 'support']).decode().split()
-    subprocess.check_call(['g++', '-O1', '-std=c++14', src] + cxx + ld + ['-o', IRDUMP])
+    # several checks may start at once on a fresh copy: one of them builds (under a lock, into a temporary name, then an atomic rename)
+    import fcntl
+    with open(IRDUMP + '.lock', 'w') as lock:
+        fcntl.flock(lock, fcntl.LOCK_EX)
+        if os.path.exists(IRDUMP) and os.path.getmtime(IRDUMP) >= os.path.getmtime(src):
+            return
+        cxx = subprocess.check_output(['llvm-config-14', '--cxxflags']).decode().split()
+        cxx = [x for x in cxx if not x.startswith('-std=')]
+        ld = subprocess.check_output(['llvm-config-14', '--ldflags', '--libs', 'core', 'irreader', 'support']).decode().split()
+        tmp = '%s.tmp%d' % (IRDUMP, os.getpid())
+        subprocess.check_call(['g++', '-O1', '-std=c++14', src] + cxx + ld + ['-o', tmp])
+        os.rename(tmp, IRDUMP)
 
 
 def compile_ir(outdir, units=None, extra=(), exceptions=False, tag=''):
